@@ -391,6 +391,72 @@ func runC01() {
 				}
 			}
 		}
+		// (g) hooks that log: a hook writing its own event through ANOTHER logger while the first event is being
+		// finalised - before or after a discarding hook, between field-adding hooks. Every line on either
+		// destination must be well-formed, the discarded event must not appear, the hook's event exactly once
+		{
+			type hk struct{ kind string }
+			orders := [][]string{{"log"}, {"discard", "log"}, {"log", "discard"}, {"add", "discard", "add", "log", "add"}, {"log", "add", "log"}}
+			for _, a := range S {
+				for oi, order := range orders {
+					for _, withCtx := range []bool{false, true} {
+						en.idx++
+						if (en.idx%int64(n) != int64(shard) && onlyIndex == 0) || (onlyIndex != 0 && en.idx != onlyIndex) {
+							continue
+						}
+						curIndex = en.idx
+						var l0, l1 [][]byte
+						other := zerolog.New(lineCollector{&l1}).With().Str("o", "x").Logger()
+						lg := zerolog.New(lineCollector{&l0})
+						if withCtx {
+							lg = lg.With().Str("c", "y").Logger()
+						}
+						discards, logs := 0, 0
+						for _, k := range order {
+							switch k {
+							case "log":
+								logs++
+								lg = lg.Hook(zerolog.HookFunc(func(e *zerolog.Event, lvl zerolog.Level, m string) {
+									other.Warn().Str("from", "hook").Dict("d", zerolog.Dict().Str("m", m)).Msg("logged by a hook")
+								}))
+							case "discard":
+								discards++
+								lg = lg.Hook(zerolog.HookFunc(func(e *zerolog.Event, lvl zerolog.Level, m string) { e.Discard() }))
+							case "add":
+								lg = lg.Hook(zerolog.HookFunc(func(e *zerolog.Event, lvl zerolog.Level, m string) { e.Str("added", "by hook") }))
+							}
+						}
+						desc := fmt.Sprintf("hooks %v (order %d), context=%v, event field %s", order, oi, withCtx, seqx.Rekey(a, 0))
+						panicked := ""
+						func() {
+							defer func() {
+								if rec := recover(); rec != nil {
+									panicked = fmt.Sprint(rec)
+								}
+							}()
+							seqx.ApplyEvent(lg.Info(), seqx.Rekey(a, 0)).Msg("m")
+							// and one more plain event afterwards (what the first left in the pools must not leak into it)
+							lg.Error().Str("after", "z").Msg("m2")
+						}()
+						r.Transitions += 2
+						wantOwn := 2
+						if discards > 0 {
+							wantOwn = 0
+						}
+						if panicked != "" || len(l0) != wantOwn || len(l1) != 2*logs {
+							r.Violation("", "hooklog/writes", fmt.Sprintf("%s: panic=%q; own destination got %d lines (want %d), the hook's destination %d (want %d)", desc, panicked, len(l0), wantOwn, len(l1), 2*logs), desc)
+						}
+						for _, line := range append(append([][]byte{}, l0...), l1...) {
+							r.Eval(string(line), true)
+							if _, err := checkLine(line); err != nil {
+								_, key := classifyC01(seqx.Program{}, line, err)
+								r.Violation("", "hooklog/"+key, fmt.Sprintf("not one well-formed JSON object on one line: %v\n  output : %q\n  program: %s", err, line, desc), desc)
+							}
+						}
+					}
+				}
+			}
+		}
 		for k, v := range en.siteHits {
 			r.Count("site:"+k, v)
 		}
